@@ -156,11 +156,12 @@ class PyCodegen(Stringifier):
         body = [self.visit(o.spec, **kwargs)]
 
         # Fill the body
-        body += [self.visit(o.body, **kwargs)]
+        ret_args = [arg for arg in o.arguments if arg in inout_args + out_args]
+        return_stmt = ('return ', self.join_items(self.visit_all(ret_args, **kwargs)))
+        body += [self.visit(o.body, return_stmt=return_stmt, **kwargs)]
 
         # Add return statement for scalar out arguments and close everything off
-        ret_args = [arg for arg in o.arguments if arg in inout_args + out_args]
-        body += [self.format_line('return ', self.join_items(self.visit_all(ret_args, **kwargs)))]
+        body += [self.format_line(*return_stmt)]
         self.depth -= self.style.indent_default
 
         return self.join_lines(*header, *body)
@@ -172,6 +173,20 @@ class PyCodegen(Stringifier):
         Format intrinsic nodes.
         """
         return self.format_line(str(o.text).lstrip())
+
+    def visit_ReturnStmt(self, o, **kwargs):  # pylint: disable=unused-argument
+        """
+        Format as the return statement of the procedure (scalar out arguments)
+        """
+        return self.format_line(*kwargs.get('return_stmt', ('return',)))
+
+    def visit_CycleStmt(self, o, **kwargs):  # pylint: disable=unused-argument
+        return self.format_line('continue')
+
+    def visit_ExitStmt(self, o, **kwargs):  # pylint: disable=unused-argument
+        if o.text:
+            raise NotImplementedError('EXIT with a construct name')
+        return self.format_line('break')
 
     def visit_Comment(self, o, **kwargs):  # pylint: disable=unused-argument
         """
